@@ -128,6 +128,19 @@ def itemLoop (c : Cfg) (pw : PW) (rs : Nat) (p st : Piece) : Nat → Bool → CS
     | .inl r => itemLoop c pw rs p st fuel r.1 r.2
     | .inr r => r
 
+/-- the `NoSpace` arm of `report_attributes` before `fix: long reads: a report that fits no message …`:
+no test for an empty message — the chunk is sent and the read repeated, whatever the chunk holds -/
+def itemStepOld (c : Cfg) (pw : PW) (p : Piece) (x : CSt) : Sum CSt (Except Err CSt) :=
+  let r := x.processRead c pw p
+  if r.2 then .inr (.ok r.1) else .inl (r.1.flush c)
+
+def itemLoopOld (c : Cfg) (pw : PW) (p : Piece) : Nat → CSt → Except Err CSt
+  | 0, _ => .error .loops
+  | fuel + 1, x =>
+    match itemStepOld c pw p x with
+    | .inl x1 => itemLoopOld c pw p fuel x1
+    | .inr r => r
+
 /-- a list attribute as `send_array_items` sees it (the fields of `Item.list`) -/
 structure ListAttr where
   id : Nat
